@@ -459,7 +459,7 @@ impl Profile {
     /// visiting this particular leaf Node,
     /// given the distribution offered by Profile?
     fn relative_reach(&self, root: &Node, leaf: &Node) -> Probability {
-        if root.bucket() == leaf.bucket() {
+        if root.index() == leaf.index() {
             1.
         } else if let (Some(parent), Some(incoming)) = (leaf.parent(), leaf.incoming()) {
             self.relative_reach(root, &parent) * self.reach(&parent, incoming)
